@@ -3,6 +3,8 @@
 import XsdataModel.Proofs.SamplesOccur
 import XsdataModel.Bind.Parse
 import XsdataModel.Proofs.SamplesComponents
+import XsdataModel.Proofs.SamplesClasses
+import XsdataModel.Proofs.SamplesMapNodup
 
 namespace Props.C13
 open Py Xs.Samples
@@ -88,6 +90,52 @@ example :
     (∀ s ∈ samples, ∀ a ∈ s, a.min ≤ 1 ∧ a.max = 1) ∧ (∀ s ∈ samples, s.length ≤ maxsize) := by
   decide
 
+
+/-! ### whole documents: map every sample, reduce, and every mapped occurrence is admitted -/
+
+/-- **xml_samples_admitted.** For any XML documents whatsoever: `ElementMapper.map` on each and
+`reduce_classes` on the lot does not crash, every element occurrence finds its reduced class, every
+attr of the occurrence is there with bounds containing its own, and whatever the occurrence lacks is
+optional.  (This is the verdict the driver computes for `smp.e2e_xml`.) -/
+theorem xml_samples_admitted (e : SEnv) (docs : List El) :
+    allAdmitted (docs.flatMap (mapElement e)) = some true := by
+  apply allAdmitted_true
+  intro c hc
+  simp only [List.mem_flatMap] at hc
+  obtain ⟨d, _, hcd⟩ := hc
+  exact mapElement_nodup e d c hcd
+
+theorem mapM_option_mem {α β : Type} (f : α → Option β) : ∀ (xs : List α) (rs : List β),
+    xs.mapM f = some rs → ∀ r ∈ rs, ∃ x ∈ xs, f x = some r := by
+  intro xs
+  induction xs with
+  | nil => intro rs h r hr; simp at h; subst h; simp at hr
+  | cons x xs ih =>
+    intro rs h r hr
+    simp only [List.mapM_cons] at h
+    cases hx : f x with
+    | none => simp [hx] at h
+    | some b =>
+      cases hxs : xs.mapM f with
+      | none => simp [hx, hxs] at h
+      | some bs =>
+        simp [hx, hxs] at h
+        subst h
+        simp only [List.mem_cons] at hr
+        rcases hr with rfl | hr
+        · exact ⟨x, by simp, hx⟩
+        · obtain ⟨y, hy, hfy⟩ := ih bs hxs r hr
+          exact ⟨y, by simp [hy], hfy⟩
+
+/-- **json_samples_admitted.** The same for JSON documents that `DictMapper.map` gets through. -/
+theorem json_samples_admitted (e : SEnv) (docs : List (List (Str × JVal))) (name : Str) (css : List (List Cls))
+    (h : docs.mapM (fun d => mapDict e d name) = some css) : allAdmitted css.flatten = some true := by
+  apply allAdmitted_true
+  intro c hc
+  simp only [List.mem_flatten] at hc
+  obtain ⟨cs, hcs, hccs⟩ := hc
+  obtain ⟨d, _, hd⟩ := mapM_option_mem _ docs css h cs hcs
+  exact mapDict_nodup e d name cs hd c hccs
 
 /-! ### the interleaving marker across occurrences (finding C13-sequence-from-first-occurrence) -/
 
